@@ -3,11 +3,11 @@ package main
 // Evaluation of specification expressions (Go expression syntax + builtins) into SMT terms.
 
 import (
-	"golang.org/x/tools/go/packages"
 	"fmt"
 	"go/ast"
 	"go/token"
 	"go/types"
+	"golang.org/x/tools/go/packages"
 	"os"
 	"runtime/debug"
 	"strconv"
